@@ -124,6 +124,13 @@ Section S.
     rewrite V, Q2R_qn, Q2R_mult. lra.
   Qed.
 
+  (* a form without variable part is its constant *)
+  Lemma const_form a : af_coeffs a = [] -> af_fin a -> exists q, af_const a = Fin q /\ af_val a = Q2R q.
+  Proof.
+    intros C [_ H2]. destruct (fin_inv _ H2) as [k Ek]. exists k. split; [exact Ek|].
+    unfold af_val. rewrite C, Ek. cbn [cs_val cval]. lra.
+  Qed.
+
   Notation ev := (evg rho false).
 
   Theorem af_from_exp_sound : forall e f v,
@@ -149,25 +156,27 @@ Section S.
         destruct (af_merge_sound a b (-1)%Q F1 F2) as [F V]. split; [exact F|]. rewrite V, V1, V2.
         replace (Q2R (-1)) with (-1) by (unfold Q2R; cbn; lra). lra.
       + inversion Hv; subst v; clear Hv.
-        destruct (as_num e1) as [c|] eqn:N1.
-        * apply as_num_Some in N1; subst e1. apply evg_Num_inv in E1 as [q [-> ->]].
-          destruct (af_from_exp e2) as [a|] eqn:A2; [|discriminate]. cbn [option_map] in Hf. inversion Hf; subst f.
-          destruct (IHe2 _ _ eq_refl eq_refl) as [F2 V2]. destruct (af_scale_sound a q F2) as [F V].
-          split; [exact F|rewrite V, V2; lra].
-        * destruct (as_num e2) as [c|] eqn:N2; [|discriminate].
-          apply as_num_Some in N2; subst e2. apply evg_Num_inv in E2 as [q [-> ->]].
-          destruct (af_from_exp e1) as [a|] eqn:A1; [|discriminate]. cbn [option_map] in Hf. inversion Hf; subst f.
-          destruct (IHe1 _ _ eq_refl eq_refl) as [F1 V1]. destruct (af_scale_sound a q F1) as [F V].
-          split; [exact F|rewrite V, V1; lra].
+        destruct (af_from_exp e1) as [a|] eqn:A1; [|discriminate].
+        destruct (af_from_exp e2) as [b|] eqn:A2; [|discriminate].
+        destruct (IHe1 _ _ eq_refl eq_refl) as [F1 V1]. destruct (IHe2 _ _ eq_refl eq_refl) as [F2 V2].
+        destruct (af_coeffs a) as [|ca ra] eqn:Ca.
+        * inversion Hf; subst f. destruct (const_form a Ca F1) as [q [Eq Va]]. rewrite Eq.
+          destruct (af_scale_sound b q F2) as [F V]. split; [exact F|]. rewrite V, V2, <- V1, Va. lra.
+        * destruct (af_coeffs b) as [|cb rb] eqn:Cb; [|discriminate].
+          inversion Hf; subst f. destruct (const_form b Cb F2) as [q [Eq Vb]]. rewrite Eq.
+          destruct (af_scale_sound a q F1) as [F V]. split; [exact F|]. rewrite V, V1, <- V2, Vb. lra.
       + destruct (Req_EM_T y 0) as [Zy|NZ]; [discriminate|]. inversion Hv; subst v; clear Hv.
-        destruct (as_num e2) as [c|] eqn:N2; [|discriminate].
-        apply as_num_Some in N2; subst e2. apply evg_Num_inv in E2 as [q [-> ->]].
+        destruct (af_from_exp e2) as [b|] eqn:A2; [|discriminate].
+        destruct (IHe2 _ _ eq_refl eq_refl) as [F2 V2].
+        destruct (af_coeffs b) as [|cb rb] eqn:Cb; [|discriminate].
+        destruct (const_form b Cb F2) as [q [Eq Vb]]. rewrite Eq in Hf.
         destruct (xq_is_zero (Fin q)) eqn:Z; [discriminate|].
         destruct (af_from_exp e1) as [a|] eqn:A1; [|discriminate]. cbn [option_map] in Hf. inversion Hf; subst f.
         destruct (IHe1 _ _ eq_refl eq_refl) as [F1 V1].
         cbn [xq_div]. unfold xq_is_zero in Z; cbn [xq_eqb] in Z. rewrite Z.
         destruct (af_scale_sound a (qn (1 / q)) F1) as [F V]. split; [exact F|].
-        rewrite V, V1, Q2R_qn, Q2R_div, Q2R_1; [field; exact NZ|].
+        assert (Yq : y = Q2R q) by (rewrite <- V2, Vb; reflexivity).
+        rewrite V, V1, Q2R_qn, Q2R_div, Q2R_1, Yq; [field; rewrite <- Yq; exact NZ|].
         intro E. apply Qeq_bool_iff in E. unfold q_eqb in Z. congruence.
     - (* UnOp *)
       destruct op; [|discriminate].
